@@ -106,10 +106,21 @@ func vGenTree(r *rand.Rand, exact bool) []vTreeFile {
 }
 
 func vWriteTree(root string, files []vTreeFile) error {
-	for _, f := range files {
+	for i, f := range files {
 		p := filepath.Join(root, filepath.FromSlash(f.rel))
 		if err := os.MkdirAll(filepath.Dir(p), 0755); err != nil {
 			return err
+		}
+		if i%5 == 3 {
+			// every fifth file is a symbolic link to a regular file kept outside the tree
+			tgt := filepath.Join(filepath.Dir(root), fmt.Sprintf("linked_%d.dat", i))
+			if err := os.WriteFile(tgt, []byte(f.content), 0644); err != nil {
+				return err
+			}
+			if err := os.Symlink(tgt, p); err != nil {
+				return err
+			}
+			continue
 		}
 		if err := os.WriteFile(p, []byte(f.content), 0644); err != nil {
 			return err
